@@ -57,9 +57,33 @@ CHECKS = {
                 "the harness (model switches a_fixz/a_fixp) so that model and code stay in step.",
         "technique": "Coq proof by invariant over the session state machine + exhaustive call-sequence correspondence",
     },
+    "C03": {
+        "text": "A filesystem model (FS.v: tree of Dir/File/Link, kernel path walk with physical '..' and ELOOP, mkdir -p/open/symlink/"
+                "unlink/touch/utime/chmod with recorded effects) and the extraction program (ExtractFS.v: sanitising, duplicate renaming, "
+                "directory pre-pass, per-entry dispatch, post-pass). Theorem: for every destination form, every entry list whose link "
+                "members have relative '..'-free targets, on Ok and on error, every effect's real path lies under the destination "
+                "(C03_extract_confined_general); refuted in full generality by the symlink-chain witness (known finding). Correspondence: "
+                "78k (quick) / 975k (thorough) real extractions in chroot jails with an audit hook, outcome/effects/final tree vs model.",
+        "note": "Trusted: Coq kernel; FS.v as a model of Linux path resolution and pathlib 3.12 (validated against the kernel by 1500-20000 "
+                "random op sequences per run); chroot worker + audit hook. Partial: TOCTOU races between parallel workers and kernel "
+                "features outside FS.v are not modelled.",
+        "technique": "Coq proof of a confinement invariant on a filesystem model + jail-based correspondence",
+    },
+    "C13": {
+        "text": "Per-folder workers as action lists over disjoint outputs with a small-step interleaving semantics (Par.v): for every number "
+                "of workers and every complete schedule the outputs equal the sequential ones (C13_schedule_independent, by commutation "
+                "invariants), a failing worker's error reaches the caller under threads for every schedule, output names are pairwise "
+                "distinct; refuted for mp=True (errors and factory products lost: known findings). Harness: a scheduler that gates every "
+                "worker at its output writes and enforces chosen interleavings (exhaustive for small archives), damaged folders at each "
+                "position, threads/processes/sequential, two objects at once, audit of per-worker opens.",
+        "note": "Trusted: Coq kernel; Par.v hand model; the assumption that a worker's action list depends only on its folder's bytes is "
+                "checked on every run (trace under every interleaving = sequential trace). Partial: races inside one write or inside the "
+                "C decoders are below the model's granularity.",
+        "technique": "Coq proof over all interleavings (commutation of disjoint steps) + enforced-schedule correspondence",
+    },
 }
 
 _PENDING = "check not built yet in this session (planned, see DESIGN.md section 5); not a statement that proof is inapplicable"
 NOT_APPLICABLE = {p: _PENDING for p in
-                  ["C01", "C02", "C03", "C04", "C05", "C09", "C10", "C11", "C13", "C14", "C15",
+                  ["C01", "C02", "C04", "C05", "C09", "C10", "C11", "C14", "C15",
                    "C16", "C18", "C19", "C20"]}
